@@ -114,7 +114,7 @@ def _cell(v):
 
 def read_rows(I):
     """{user number: [row, ...]} of the tables the last call left; row = sorted [(heading, type, value)] of the
-    non-empty cells, columns headed 'sim' dropped"""
+    non-empty cells, columns headed 'sim' dropped; rows without any value are dropped"""
     out = {}
     for n in I.user_numbers():
         T = I.table(n)
@@ -124,7 +124,11 @@ def read_rows(I):
         heads = T.cells[0]
         rows = []
         for r in T.cells[1:]:
-            rows.append(sorted((str(h),) + _cell(v) for h, v in zip(heads, r) if v is not None and h != "sim"))
+            row = sorted((str(h),) + _cell(v) for h, v in zip(heads, r) if v is not None and h != "sim")
+            # a row without any value is not observable in general (a table without columns reports no rows at all,
+            # e.g. SELECTED_OUTPUT 5 without options): only rows that hold a value are compared
+            if row:
+                rows.append(row)
         out[n] = rows
     I.set_current(1)
     return out
